@@ -87,7 +87,7 @@ def solveNormalizedCubic (F : CubicFns α) (r s t : α) : Int × List α :=
   let D := p3 * p3 * p3 + q2 * q2
   if D == 0 && p3 == 0 then (1, [-r / 3, -r / 3, -r / 3])
   else if D > 0 then
-    let u := realRoot F (-q / 2 + F.sqrt D) 3
+    let u := realRoot F (if q > 0 then -q / 2 - F.sqrt D else -q / 2 + F.sqrt D) 3
     let v := -p / (3 * u)
     (1, [u + v - r / 3])
   else
@@ -104,8 +104,12 @@ def solveNormalizedCubic (F : CubicFns α) (r s t : α) : Int × List α :=
 `solveNormalizedCubic_cases : solveNormalizedCubic = if … then … else if … then
 cubicReal … else cubicComplex …` holds by `rfl`, so these are the same text). -/
 
-/-- the argument of the real cube root in the D > 0 branch: `-q / 2 + sqrt (D)` -/
-def cardanoA (F : CubicFns α) (r s t : α) : α := -(cubicQ r s t) / 2 + F.sqrt (cubicD r s t)
+/-- the argument of the real cube root in the D > 0 branch (as repaired in /repo commit 7563d4d):
+`(q > 0) ? -q / 2 - std::sqrt (D) : -q / 2 + std::sqrt (D)` — the larger-magnitude value of
+-q/2 ± sqrt (D), never 0 for D > 0 -/
+def cardanoA (F : CubicFns α) (r s t : α) : α :=
+  if cubicQ r s t > 0 then -(cubicQ r s t) / 2 - F.sqrt (cubicD r s t)
+  else -(cubicQ r s t) / 2 + F.sqrt (cubicD r s t)
 
 /-- the D > 0 branch -/
 def cubicReal (F : CubicFns α) (r s t : α) : Int × List α :=
@@ -132,31 +136,6 @@ def solveCubic (F : CubicFns α) (a b c d : α) : Int × List α :=
   if a == 0 then solveQuadratic F.sqrt b c d
   else solveNormalizedCubic F (b / a) (c / a) (d / a)
 
-
-/-! ### Variant of the D > 0 branch with the cancellation-free sign choice
-
-`T u = real_root ((q > 0) ? -q / 2 - std::sqrt (D) : -q / 2 + std::sqrt (D), 3);`
-This is the repair proposed for the defect `cubic_real_branch_defect`; it is NOT what the
-source says today.  tools/props/c17.py reads the `T u = real_root (…)` line of ImathRoots.h and
-executes this variant in the correspondence only when the source has exactly this form. -/
-
-def cardanoAStable (F : CubicFns α) (r s t : α) : α :=
-  if cubicQ r s t > 0 then -(cubicQ r s t) / 2 - F.sqrt (cubicD r s t)
-  else -(cubicQ r s t) / 2 + F.sqrt (cubicD r s t)
-
-def cubicRealStable (F : CubicFns α) (r s t : α) : Int × List α :=
-  let u := realRoot F (cardanoAStable F r s t) 3
-  let v := -(cubicP r s) / (3 * u)
-  (1, [u + v - r / 3])
-
-def solveNormalizedCubicStable (F : CubicFns α) (r s t : α) : Int × List α :=
-  if cubicD r s t == 0 && cubicP r s / 3 == 0 then (1, [-r / 3, -r / 3, -r / 3])
-  else if cubicD r s t > 0 then cubicRealStable F r s t
-  else cubicComplex F r s t
-
-def solveCubicStable (F : CubicFns α) (a b c d : α) : Int × List α :=
-  if a == 0 then solveQuadratic F.sqrt b c d
-  else solveNormalizedCubicStable F (b / a) (c / a) (d / a)
 
 /-- which branch `solveNormalizedCubic` takes (for hit counts): 0 triple root,
 1 real (D > 0), 2 complex with D = 0, 3 complex with D < 0 -/
